@@ -378,6 +378,14 @@ def declValue (sem : Sem) : Option Int → Val
   | some n => some n
   | none => sem.declDefault
 
+/-- The UNTIL test of a REPEAT: `v` is the evaluated condition (`none` = a name did not resolve),
+`again` the result of going round the loop once more. -/
+def repeatCheck (sem : Sem) (v : Option Val) (σ1 : Store) (again : Option (Sig × Store)) : Option (Sig × Store) :=
+  match v with
+  | none => some (.error 1105, σ1)
+  | some none => if sem.untilNullExits then some (.normal, σ1) else again
+  | some (some k) => if k = 0 then again else some (.normal, σ1)
+
 def exec (sem : Sem) : Nat → Stmt → Store → Option (Sig × Store)
   | 0, _, _ => none
   | n + 1, s, σ =>
@@ -432,11 +440,7 @@ def exec (sem : Sem) : Nat → Stmt → Store → Option (Sig × Store)
       | none => none
       | some (sig, σ1) =>
         let again := exec sem n (.repeat label body c) σ1
-        let check : Option (Sig × Store) :=
-          match evalExpr σ1.look c with
-          | none => some (.error 1105, σ1)
-          | some none => if sem.untilNullExits then some (.normal, σ1) else again
-          | some (some k) => if k = 0 then again else some (.normal, σ1)
+        let check : Option (Sig × Store) := repeatCheck sem (evalExpr σ1.look c) σ1 again
         match sig with
         | .normal => check
         | .iterate l =>
@@ -562,11 +566,22 @@ def callSpec (sem : Sem) (fuel : Nat) (p : Proc) (args : List Arg) (s : Session)
 
 /-! ### Static feature predicates (regions are built from these) -/
 
+/-- Number of ops `compile` emits for a statement (independent of `base` and the label table). -/
+def codeLen : Stmt → Nat
+  | .skip => 0
+  | .seq a b => codeLen a + codeLen b
+  | .block _ b => codeLen b + 2
+  | .ite _ t e => codeLen t + codeLen e + 2
+  | .while _ _ b => codeLen b + 2
+  | .repeat _ b _ => codeLen b + codeLen b + 2
+  | .loop _ b => codeLen b + 1
+  | _ => 1
+
 /-- Last op emitted for `s` is a `ScopeEnd`. -/
 def endsWithBlock : Stmt → Bool
   | .block _ _ => true
-  | .seq a b => if (compile 0 [] b).1.isEmpty then endsWithBlock a else endsWithBlock b
-  | .ite _ _ els => !(compile 0 [] els).1.isEmpty && endsWithBlock els
+  | .seq a b => if codeLen b = 0 then endsWithBlock a else endsWithBlock b
+  | .ite _ _ els => codeLen els != 0 && endsWithBlock els
   | _ => false
 
 /-- Some `IF/CASE` has a final branch whose code ends with a `ScopeEnd`. -/
